@@ -246,6 +246,12 @@ func (in *Interp) metaOf(v Value, event string) Value {
 	return mt.rawget(event)
 }
 
+// hasMeta reports whether assigning to o[k] may run a metamethod.
+func (in *Interp) hasMeta(o Value) bool {
+	t, ok := o.(*Table)
+	return !ok || t.meta != nil
+}
+
 func first(vs []Value) Value {
 	if len(vs) > 0 {
 		return vs[0]
@@ -475,6 +481,25 @@ func (in *Interp) stmt(s prog.Stmt, envp **binding, tbcs *[]tbcEntry, fr *frame)
 			}
 		}
 		vals := in.exprList(x.Exprs, env, fr)
+		// "The order of the assignments is undefined" (§3.3.3): two targets
+		// denoting the same variable or the same table slot leave the result open.
+		metaTargets := 0
+		for i := range tg {
+			if tg[i].name == "" && in.hasMeta(tg[i].obj) {
+				metaTargets++ // the store may run a metamethod: their order is observable
+			}
+			for j := 0; j < i; j++ {
+				if tg[i].name != "" && tg[i].name == tg[j].name {
+					unspec("multiple assignment names one variable twice")
+				}
+				if tg[i].name == "" && tg[j].name == "" && tg[i].obj == tg[j].obj && rawEqual(tg[i].key, tg[j].key) {
+					unspec("multiple assignment stores to one table slot twice")
+				}
+			}
+		}
+		if metaTargets > 1 {
+			unspec("multiple assignment with two stores that may run metamethods")
+		}
 		for i := range tg {
 			var v Value
 			if i < len(vals) {
@@ -810,9 +835,20 @@ func (in *Interp) expr1(e prog.Expr, env *binding, fr *frame) Value {
 	case *prog.TableC:
 		t := NewTable()
 		var pos int64 = 1
+		// "The order of the assignments in a constructor is undefined" (§3.4.9):
+		// a key given twice leaves the result open.
+		seen := map[interface{}]bool{}
+		once := func(k Value) {
+			k = normKey(k)
+			if seen[k] {
+				unspec("table constructor assigns one key twice")
+			}
+			seen[k] = true
+		}
 		for i, f := range x.Fields {
 			switch {
 			case f.Nam != "":
+				once(f.Nam)
 				t.rawset(f.Nam, in.expr1(f.Val, env, fr))
 			case f.Key != nil:
 				k := in.expr1(f.Key, env, fr)
@@ -823,14 +859,17 @@ func (in *Interp) expr1(e prog.Expr, env *binding, fr *frame) Value {
 				if fk, ok := k.(float64); ok && fk != fk {
 					in.rterr(x.ID, "table index is NaN")
 				}
+				once(k)
 				t.rawset(k, v)
 			default:
 				if i == len(x.Fields)-1 {
 					for _, v := range in.multi(f.Val, env, fr) {
+						once(pos)
 						t.rawset(pos, v)
 						pos++
 					}
 				} else {
+					once(pos)
 					t.rawset(pos, in.expr1(f.Val, env, fr))
 					pos++
 				}
@@ -1102,6 +1141,9 @@ func (in *Interp) index(o Value, k Value, node int) Value {
 			v := t.rawget(k)
 			if v != nil {
 				return v
+			}
+			if ks, ok := k.(string); ok && t.missing[ks] {
+				unspec("library name %q is not modelled by the reference", ks)
 			}
 			h := in.metaOf(t, "__index")
 			if h == nil {
